@@ -10,6 +10,8 @@ What is extracted (from the statements of the source, nothing is assumed):
   the queue an operation acts on is resolved through the `args=` tuple of the Thread(...) call: the first Queue created
   in run_conversion_loop is Qc, the second Qw.  A single register per thread is modelled (the variable that holds the item
   in hand); the generator checks the data flow get -> compress -> put / write against it.
+  callers     : conversion.py: every call of run_conversion_loop is followed, in the same `with open(.., 'wb') as F`, by
+                write_headers(.., F) and write_hash(hash, F) in the calling thread; no thread or queue in conversion.py.
   producers   : every use of the queue parameter is a statement `queue.put(expr)`; no other queue or thread operation.
 Anything else -- an unknown statement, a third thread or queue, an operation on a variable the generator cannot
 resolve, a put of something that is not the item in hand -- raises: the file is then NOT produced and every proof
@@ -283,6 +285,50 @@ def main_ops(fn, tree):
     return ops, workers
 
 
+def caller_ops(srcdir):
+    """conversion.py: every call of run_conversion_loop sits in `with open(<name>, 'wb') as F:` as
+         hash_bytes = run_conversion_loop(<source>, F, ...); self.write_headers(..., F); self.write_hash(hash_bytes, F)
+    i.e. the footer arrays and the hash patch are written by the calling thread, after the call has returned"""
+    tree = ast.parse(open(os.path.join(srcdir, 'conversion.py')).read())
+    for n in ast.walk(tree):
+        if isinstance(n, ast.Name) and n.id in ('Thread', 'Queue', 'compressor', 'writer'):
+            raise PipelineGenError(f'conversion.py uses {n.id} (line {n.lineno})')
+    calls = [n for n in ast.walk(tree) if isinstance(n, ast.Call) and src(n.func).endswith('run_conversion_loop')]
+    expect(calls, 'conversion.py: no call of run_conversion_loop')
+    out, seen = [], set()
+    for w in ast.walk(tree):
+        if not isinstance(w, ast.With):
+            continue
+        inside = [c for c in calls if any(c is x for st in w.body for x in ast.walk(st))]
+        direct = [st for st in w.body if isinstance(st, ast.Assign) and any(st.value is c for c in calls)]
+        if not direct:
+            continue
+        expect(len(w.items) == 1 and isinstance(w.items[0].context_expr, ast.Call) and src(w.items[0].context_expr.func) == 'open'
+               and len(w.items[0].context_expr.args) == 2 and src(w.items[0].context_expr.args[1]) == "'wb'"
+               and isinstance(w.items[0].optional_vars, ast.Name), f'conversion.py: output file is not `with open(name, \'wb\') as F`: {src(w.items[0])}')
+        fh = w.items[0].optional_vars.id
+        ops = []
+        hashvar = None
+        for st in w.body:
+            if isinstance(st, ast.Assign) and len(st.targets) == 1 and isinstance(st.targets[0], ast.Name) and isinstance(st.value, ast.Call) \
+                    and src(st.value.func) == 'run_conversion_loop':
+                expect(len(st.value.args) >= 2 and src(st.value.args[1]) == fh, f'conversion.py: run_conversion_loop is not given the output handle: {src(st)}')
+                hashvar = st.targets[0].id
+                seen.add(id(st.value))
+                ops.append('CallLoop')
+            elif isinstance(st, ast.Expr) and isinstance(st.value, ast.Call) and src(st.value.func) == 'self.write_headers':
+                expect(st.value.args and src(st.value.args[-1]) == fh, f'conversion.py: {src(st)}')
+                ops.append('WriteFooters')
+            elif isinstance(st, ast.Expr) and isinstance(st.value, ast.Call) and src(st.value.func) == 'self.write_hash':
+                expect(len(st.value.args) == 2 and src(st.value.args[0]) == hashvar and src(st.value.args[1]) == fh, f'conversion.py: {src(st)}')
+                ops.append('PatchHash')
+            else:
+                raise PipelineGenError(f'conversion.py: unsupported statement next to run_conversion_loop: {src(st)}')
+        out.append(ops)
+    expect(len(seen) == len(calls), 'conversion.py: a call of run_conversion_loop outside the recognised `with open(...)` pattern')
+    return out
+
+
 def extract(srcdir):
     path = os.path.join(srcdir, 'conversion_utils.py')
     tree = ast.parse(open(path).read())
@@ -295,7 +341,7 @@ def extract(srcdir):
             for n in ast.walk(node):
                 if isinstance(n, ast.Name) and n.id in ('Thread', 'Queue'):
                     raise PipelineGenError(f'{node.name}: uses {n.id}')
-    return {'main': ops, 'compressor_pro': workers['TC'][0], 'compressor_loop': workers['TC'][1],
+    return {'callers': caller_ops(srcdir), 'main': ops, 'compressor_pro': workers['TC'][0], 'compressor_loop': workers['TC'][1],
             'writer_pro': workers['TW'][0], 'writer_loop': workers['TW'][1]}
 
 
@@ -334,12 +380,19 @@ Definition compressor_loop : list op := %(compressor_loop)s.
 (* writer *)
 Definition writer_pro : list op := %(writer_pro)s.
 Definition writer_loop : list op := %(writer_loop)s.
+
+(* conversion.py: what every caller of run_conversion_loop does with the output handle, in statement order: the footer
+   arrays and the hash patch are written by the calling thread after the call has returned *)
+Inductive caller_op := CallLoop | WriteFooters | PatchHash.
+Definition caller_ops : list (list caller_op) := %(callers)s.
 '''
 
 
 def generate(srcdir):
     d = extract(srcdir)
-    return {'Pipeline': TEMPLATE % {k: coq_list(v) for k, v in d.items()}}
+    sub = {k: coq_list(v) for k, v in d.items() if k != 'callers'}
+    sub['callers'] = '[' + '; '.join('[' + '; '.join(c) + ']' for c in d['callers']) + ']'
+    return {'Pipeline': TEMPLATE % sub}
 
 
 if __name__ == '__main__':
